@@ -419,7 +419,7 @@ def centroid (rs : List (NRect α)) : α × α :=
   (s.1 / s.2.2, s.2.1 / s.2.2)
 
 /-- first loop of `_create_rectangles` for one module.  The `create_square` branch needs a hard, non-terminal module
-    without rectangles, which `setup` has already rejected (`parseModule_hard_has_rects`). -/
+    without rectangles, which `setup` has already rejected (`ModOK.hard_ok` in FV/Proofs/Netlist.lean). -/
 def prepModule (m : Mod α) : Except Err (Mod α) :=
   if !(m.terminal || !m.hard || m.center.isSome || !m.rects.isEmpty) then .error .hardNoCenter
   else if m.hard && !m.terminal && m.rects.isEmpty then .error .unreachable
